@@ -14,6 +14,7 @@ import LarkVerif.TransformEmbed
 import LarkVerif.Cache
 import LarkVerif.Serialize
 import LarkVerif.Threads
+import LarkVerif.Mangle
 import Std.Data.HashMap
 /-! Line-protocol driver: one JSON request per stdin line (`{"op": ...}`), one JSON answer per stdout line.
     Runs the *executable definitions the theorems are about*.  Not part of the proof library. -/
@@ -446,6 +447,14 @@ def handle (j : Json) : Except String Json := do
   | "shape" => runShape j
   | "embed" => runEmbed j
   | "cache" => runCache j
+  | "mangle" =>
+    let pre := (← getStr j "prefix").toList
+    let aliases ← (← getArr j "aliases").mapM fun a => do
+      match (← a.getArr?).toList with
+      | [x, y] => pure ((← x.getStr?).toList, (← y.getStr?).toList)
+      | _ => throw "alias"
+    let names ← (← getArr j "names").mapM (·.getStr?)
+    pure (Json.arr (names.map (fun n => Json.str (String.ofList (MangleProto.mangle pre aliases n.toList)))).toArray)
   | "threads" =>
     let fixed ← boolOf (← j.getObjVal? "fixed")
     let n ← getNat j "n"
